@@ -31,10 +31,10 @@ from collections.abc import Mapping
 from pathlib import Path
 
 from .. import common
-from ..impl_c13 import Abort, CreatorError, Obj, Sched, SchedLock, run_stack_impl, LOADER_NAMES
+from ..impl_c13 import Abort, CreatorError, Obj, ParkSet, Sched, SchedLock, run_stack_impl, LOADER_NAMES
 
 LEAN_MODULES = ['Props.C13']
-TRUSTED = ['harness/impl_c13.py (deterministic scheduler, scheduler lock; StackRig: real Pipeline / pipelinerunner / pype / '
+TRUSTED = ['harness/impl_c13.py (deterministic scheduler, scheduler lock, ParkSet = sets that hand over control before each operation; StackRig: real Pipeline / pipelinerunner / pype / '
            'Step clients, counting wrappers around the four creators, per-operation SIGALRM time-out)',
            'harness/props/c13.py (adapters per cache class, monitors, canonicaliser)',
            'CPython threading.Event hand-off; dict get/set atomicity']
@@ -43,9 +43,16 @@ ASSUMPTIONS = [
     'threads can only be pre-empted observably at lock acquire, creator entry, creator exit, lock release and between operations '
     '(everything else in Cache.get touches only thread-local names or happens under the lock)',
     'falsy parents (None, \'\', 0) all mean "no parent": Loader.get_pipeline keys them by bare name',
-    'LoaderCache.clear_pipes iterating the loader table without the lock is not part of the claim',
-    'layered sessions (CacheTS.Stack) are sequential: one thread; the interleavings of each single cache are the transition system',
-    'the world answers a request by its cache key (Stack.WorldOk): a loader does not tell the falsy parents None, \'\', 0 apart',
+    'no creator looks up the cache it is creating for (threading.Lock is not re-entrant: Lean reentrant_get_deadlocks; the scheduler '
+    'case family nest:reentrant shows the real Cache dead-locks; layered sessions through the real clients are watched for it)',
+    'look-ups nest only as Loader._pipeline_cache -> file_cache (watched in every layered session); the import lock taken by '
+    'load_the_loader / load_the_step under a cache lock is outside the model',
+    'creators terminate (progress theorems); CPython dict iteration raises RuntimeError iff the size differs from the size at iter() '
+    '(CacheTS.Scan)',
+    'layered sessions (CacheTS.Stack) are sequential: one thread; the interleavings of each single cache, of the pipeline-cache/file_cache '
+    'pair (CacheTS.Nest) and of clear_pipes (CacheTS.Scan) are the transition systems',
+    'the world answers a request by its cache key (Stack.WorldOk): proved for the Resolve model of the file loader for ONE process '
+    'working directory; os.chdir between look-ups is a change of the world; a custom loader does not tell the falsy parents None, \'\', 0 apart',
     'in layered sessions the file a (parent, name) request means is supplied by the harness (first existing of parent dir / '
     'absolute path; the relative names used exist nowhere else — checked); the resolution order itself is C19',
     'editing a step module is not observable after a clear (Python keeps the module in sys.modules): for step_cache only the '
@@ -196,9 +203,31 @@ def run_impl(case):
     from pypyr.errors import PipelineDefinitionError
     fails = set(case['fails'])
     bad_payload = case.get('variant') == 'badpayload'
+    scan = case.get('kind') == 'scan'
     st = {'calls': 0, 'hist': [], 'first': {}, 'identity_breaks': [], 'op_calls': {}, 'active': 0,
           'overlap': 0, 'notes': []}
     holder = {}
+    sweeps = [[] for _ in case['threads']]
+    sweep_log = {}      # thread -> Loader objects (creation numbers) its current clear_pipes() has cleared
+    missed = []
+
+    def make_loader(c, k):
+        # a real Loader whose own pipeline cache is guarded by a scheduler lock: clear_pipes() parks in loader.clear()
+        import pypyr.cache.loadercache as lcm
+
+        class VLoader(lcm.Loader):
+            __slots__ = ('c', 'key')
+
+            def clear(self):
+                t = holder['sched'].tid()
+                if t is not None:
+                    sweep_log.setdefault(t, []).append(self.c)
+                return super().clear()
+        ld = VLoader(f'vmod.loader{k}', lambda pipeline_name, parent: {'steps': []})
+        ld.c, ld.key = c, k
+        ld._pipeline_cache._lock = SchedLock(holder['sched'])
+        ld._pipeline_cache._cache['vpipe'] = object()
+        return ld
 
     def creator(k, payload=False):
         sched = holder['sched']
@@ -222,6 +251,8 @@ def run_impl(case):
         st['hist'].append(['create', t, k, c])
         if payload:
             return {'c': c, 'steps': []}
+        if scan:
+            return make_loader(c, k)
         return Obj(c, k)
 
     adapter = None
@@ -230,7 +261,7 @@ def run_impl(case):
     def ident(v):
         if id(v) in seed_ids:
             return seed_ids[id(v)]
-        if isinstance(v, Obj):
+        if isinstance(v, Obj) or (scan and hasattr(v, '_pipeline_cache') and hasattr(v, 'c')):
             c = v.c
         elif isinstance(v, PipelineDefinition) and isinstance(v.pipeline, Mapping) and 'c' in v.pipeline:
             c = v.pipeline['c']
@@ -252,6 +283,8 @@ def run_impl(case):
     def before_release(t, lock):
         # the critical section's work is done when the thread reaches _lock.__exit__: log here, so the
         # history is in critical-section order; a hit's object id is filled in when get() returns
+        if adapter is None or lock is not adapter.cache._lock:
+            return       # the lock of a Loader's own pipeline cache (clear_pipes)
         if logged.get(t) is not None or t not in cur:
             return
         if cur[t] == 'clear':
@@ -294,7 +327,42 @@ def run_impl(case):
             results[t].append(['cleared'])
         return op
 
-    programs = [[do_clear() if o == 'clear' else do_get(o['get']) for o in prog] for prog in case['threads']]
+    def do_clear_pipes(k=None):
+        def op(t, i):
+            cur.pop(t, None)
+            sweep_log[t] = []
+            mine = lambda: {ident(v) for n, v in adapter.table().items() if k is None or n == adapter.names[k]}   # noqa: E731
+            before = mine()
+            try:
+                if k is None:
+                    adapter.inst.clear_pipes()
+                else:
+                    adapter.inst.clear_pipes(adapter.names[k])
+                out = 'swept'
+            except Abort:
+                raise
+            except RuntimeError as e:
+                out = 'sizeChanged' if 'changed size during iteration' in str(e) else f'RuntimeError: {e}'
+            except Exception as e:
+                out = f'{type(e).__name__}: {e}'
+            after = mine()
+            done = list(sweep_log.pop(t, []))
+            sweeps[t].append([out, done])
+            left = sorted((before & after) - set(done))
+            if left or out != 'swept':
+                missed.append({'thread': t, 'outcome': out, 'cleared': done, 'kept_their_pipelines': left})
+        return op
+
+    def mk_op(o):
+        if o == 'clear':
+            return do_clear()
+        if o == 'clearPipes':
+            return do_clear_pipes()
+        if 'clearPipesOf' in o:
+            return do_clear_pipes(o['clearPipesOf'])
+        return do_get(o['get'])
+
+    programs = [[mk_op(o) for o in prog] for prog in case['threads']]
     sched = Sched(programs)
     sched.before_release = before_release
     holder['sched'] = sched
@@ -316,7 +384,8 @@ def run_impl(case):
         lock = adapter.cache._lock
         return {'hist': st['hist'], 'results': results, 'cache': table, 'calls': st['calls'],
                 'done': outcome == 'done', 'outcome': outcome, 'lock_held': getattr(lock, 'owner', None) is not None,
-                'identity_breaks': st['identity_breaks'], 'creator_overlaps': st['overlap'], 'notes': st['notes']}
+                'identity_breaks': st['identity_breaks'], 'creator_overlaps': st['overlap'], 'notes': st['notes'],
+                'sweeps': sweeps, 'sweep_failures': missed}
     finally:
         config.no_cache = old_nc
         if adapter is not None:
@@ -324,6 +393,9 @@ def run_impl(case):
 
 
 def run_model(env, case):
+    if case.get('kind') == 'scan':
+        return env.driver.ask('cache.scan', threads=case['threads'], sched=case['sched'], seed=seeds_of(case),
+                              fails=case['fails'], noCache=case['noCache'], keys=case['keys'], finish=True)
     obs = env.driver.ask('cache.run', threads=case['threads'], sched=case['sched'], seed=seeds_of(case),
                          fails=case['fails'], noCache=case['noCache'], keys=case['keys'], mode='turn', finish=True)
     return obs
@@ -333,41 +405,15 @@ def run_model(env, case):
 # monitors: the property text judged on the implementation's own history
 # ---------------------------------------------------------------------------------------------
 
-def monitor(case, obs):
-    """Returns a list of (clause, detail). Written from the property statement; does not use the
-    model's observation."""
+def is_sweep(o):
+    return o == 'clearPipes' or (isinstance(o, dict) and 'clearPipesOf' in o)
+
+
+def history_monitor(hist, seed, nkeys):
+    """The clauses single flight / same object / failures not remembered / clear refreshes on ONE cache's history
+    (oldest first) of hit / create / fail / clear events. Returns (violations, last) where last[k] is the newest
+    event concerning key k."""
     out = []
-    seed = {k: c for k, c in seeds_of(case)}
-    hist = obs['hist']
-    if obs.get('outcome') == 'deadlock':
-        out.append(('progress', 'threads blocked for ever on the cache lock'))
-    for c in obs.get('identity_breaks', []):
-        out.append(('same_object', f'two different Python objects were handed out for creation {c}'))
-    for e in hist:
-        if e[0] == 'error':
-            out.append(('transparent', f'look-up of key {e[2]} raised {e[3]} without running a creator'))
-    # what each operation returned must be what it observed
-    per_thread = {}
-    for e in hist:
-        if e[0] in ('hit', 'create'):
-            per_thread.setdefault(e[1], []).append(['val', e[3]])
-        elif e[0] == 'fail':
-            per_thread.setdefault(e[1], []).append(['raised', e[3]])
-        elif e[0] == 'clear':
-            per_thread.setdefault(e[1], []).append(['cleared'])
-    for t, rs in enumerate(obs['results']):
-        if obs.get('done') and rs != per_thread.get(t, []):
-            out.append(('same_object', f'thread {t} returned {rs} but observed {per_thread.get(t, [])}'))
-    if case['noCache']:
-        for e in hist:
-            if e[0] == 'hit':
-                out.append(('no_cache', f'key {e[2]} was served from the table although no_cache is set'))
-        if obs['cache'] != [[k, c] for k, c in sorted(seed.items())]:
-            out.append(('no_cache', f'the table was written although no_cache is set: {obs["cache"]}'))
-        gets = sum(1 for p in case['threads'] for o in p if o != 'clear')
-        if obs.get('done') and obs['calls'] != gets:
-            out.append(('no_cache', f'{gets} look-ups but {obs["calls"]} creator invocations'))
-        return out
     current = {}      # key -> id created/served since the last clear
     created = set()   # keys successfully created since the last clear
     last = {}         # key -> newest event concerning the key ('clear' after a clear)
@@ -375,7 +421,7 @@ def monitor(case, obs):
         kind = e[0]
         if kind == 'clear':
             current, created = {}, set()
-            last = {k: ('clear',) for k in range(case['keys'])}
+            last = {k: ('clear',) for k in range(nkeys)}
         elif kind == 'create':
             _, t, k, c = e
             if k in created:
@@ -404,6 +450,66 @@ def monitor(case, obs):
             last[k] = ('hit', c)
         elif kind == 'fail':
             last[e[2]] = ('fail', e[3])
+    return out, last
+
+
+def monitor(case, obs):
+    """Returns a list of (clause, detail). Written from the property statement; does not use the
+    model's observation."""
+    out = []
+    seed = {k: c for k, c in seeds_of(case)}
+    hist = obs['hist']
+    if obs.get('outcome') == 'deadlock':
+        out.append(('progress', 'threads blocked for ever on the cache lock'))
+    for c in obs.get('identity_breaks', []):
+        out.append(('same_object', f'two different Python objects were handed out for creation {c}'))
+    for e in hist:
+        if e[0] == 'error':
+            out.append(('transparent', f'look-up of key {e[2]} raised {e[3]} without running a creator'))
+    # progress: every operation returns — a get with a value or its creator's exception, a clear with nothing
+    if obs.get('done'):
+        for t, prog in enumerate(case['threads']):
+            want = ['cleared' if o == 'clear' else 'get' for o in prog if not is_sweep(o)]
+            got = ['cleared' if r[0] == 'cleared' else 'get' if r[0] in ('val', 'raised') else r[0] for r in obs['results'][t]]
+            if got != want:
+                out.append(('progress', f'thread {t} ran {want} but its operations returned {got}'))
+    # clear_pipes(): "a clear makes the next look-up create afresh" — every Loader that was in the table during the
+    # whole call must have been cleared when the call is over, and the call must not fail because of other threads
+    for f in obs.get('sweep_failures', []):
+        if f['outcome'] != 'swept':
+            out.append(('clear_refreshes',
+                        f'clear_pipes in thread {f["thread"]} failed with {f["outcome"]} (another thread changed the loader table meanwhile) '
+                        f'after clearing loaders {f["cleared"]}; present during the whole call and NOT cleared: {f["kept_their_pipelines"]}',
+                        {'site': 'LoaderCache.clear_pipes', 'race': 'unlocked-iteration'}))
+        else:
+            out.append(('clear_refreshes',
+                        f'clear_pipes in thread {f["thread"]} returned after clearing loaders {f["cleared"]}; loaders '
+                        f'{f["kept_their_pipelines"]} were in the table during the whole call and kept their pipelines',
+                        {'site': 'LoaderCache.clear_pipes', 'fault': 'loader-not-cleared'}))
+    # what each operation returned must be what it observed
+    per_thread = {}
+    for e in hist:
+        if e[0] in ('hit', 'create'):
+            per_thread.setdefault(e[1], []).append(['val', e[3]])
+        elif e[0] == 'fail':
+            per_thread.setdefault(e[1], []).append(['raised', e[3]])
+        elif e[0] == 'clear':
+            per_thread.setdefault(e[1], []).append(['cleared'])
+    for t, rs in enumerate(obs['results']):
+        if obs.get('done') and rs != per_thread.get(t, []):
+            out.append(('same_object', f'thread {t} returned {rs} but observed {per_thread.get(t, [])}'))
+    if case['noCache']:
+        for e in hist:
+            if e[0] == 'hit':
+                out.append(('no_cache', f'key {e[2]} was served from the table although no_cache is set'))
+        if obs['cache'] != [[k, c] for k, c in sorted(seed.items())]:
+            out.append(('no_cache', f'the table was written although no_cache is set: {obs["cache"]}'))
+        gets = sum(1 for p in case['threads'] for o in p if o != 'clear' and not is_sweep(o))
+        if obs.get('done') and obs['calls'] != gets:
+            out.append(('no_cache', f'{gets} look-ups but {obs["calls"]} creator invocations'))
+        return out
+    hv, last = history_monitor(hist, seed, case['keys'])
+    out += hv
     if obs.get('done'):
         want = dict(seed)
         for k, ev in last.items():
@@ -436,7 +542,10 @@ def check_case(env, res, case, count=True):
     model = run_model(env, case)
     res.case(case)
     if count:
-        res.count('cache:' + case['cache'])
+        res.count(('scan:' if case.get('kind') == 'scan' else 'cache:') + case['cache'])
+        for sw in impl.get('sweeps', []):
+            for o in sw:
+                res.count('sweep:' + o[0])
         res.count('noCache' if case['noCache'] else 'cached')
         res.count(f'threads={len(case["threads"])}')
         for e in impl['hist']:
@@ -445,9 +554,15 @@ def check_case(env, res, case, count=True):
     j = judge_lean(env, case, impl)
     if j is not None and not j['ok'] and not vs:
         vs.append(('refines_atomic', f'the history is not a trace of the atomic get-or-create specification: {j}'))
-    for clause, detail in vs[:3]:
-        res.violation(case, f'{clause}: {detail}', signature={'clause': clause, 'cache': case['cache']}, impl=impl)
-    keys = ('hist', 'results', 'cache', 'calls', 'done')
+    for v in vs[:3]:
+        clause, detail = v[0], v[1]
+        sig = {'clause': clause, 'cache': case['cache']}
+        if len(v) > 2:
+            sig.update(v[2])
+        res.violation(case, f'{clause}: {detail}', signature=sig, impl=impl)
+    if not model['done']:
+        raise common.Infra('cache.run/scan: the fair completion of the model did not finish (theorem driver_finish_completes)')
+    keys = ('hist', 'results', 'cache', 'calls', 'done') + (('sweeps',) if case.get('kind') == 'scan' else ())
     mi = {k: impl[k] for k in keys}
     mm = {k: model[k] for k in keys}
     if mi != mm:
@@ -531,6 +646,416 @@ def random_case(rng, nthreads=None):
     if case['cache'] == 'Loader' and rng.random() < 0.5:
         case['variant'] = 'badpayload'
     return case
+
+
+# ---------------------------------------------------------------------------------------------
+# LoaderCache.clear_pipes() next to look-ups (lean `CacheTS.Scan`): the table is read and iterated without the lock
+# ---------------------------------------------------------------------------------------------
+
+G2, CP = {'get': 2}, 'clearPipes'
+
+
+def directed_scan_cases():
+    """clear_pipes() alone; while another thread creates a loader (the iteration is parked inside loader.clear() when
+    the table grows); while another thread clears the table; two sweeps at once; a failing creator in between."""
+    out = []
+
+    def mk(threads, sched, fails=(), keys=3):
+        out.append({'kind': 'scan', 'cache': 'LoaderCache', 'keys': keys, 'threads': threads, 'sched': list(sched),
+                    'fails': list(fails), 'noCache': False})
+    # T0 makes loader 0 then sweeps; T1 makes loader 1 while T0 is inside loader0.clear()
+    mk([[G0, CP], [G1]], [0] * 5 + [0, 0] + [1] * 5 + [0] * 4)
+    mk([[G0, CP], [G1]], [0] * 5 + [0, 0, 0] + [1] * 5 + [0] * 4)
+    # the same with T1's creator failing: the table does not grow, the sweep completes
+    mk([[G0, CP], [G1]], [0] * 5 + [0, 0] + [1] * 5 + [0] * 4, fails=[1])
+    # two loaders in the table, a third arrives after the first was cleared: the second keeps its pipelines
+    mk([[G0, G1, CP], [G2]], [0] * 10 + [0, 0, 0] + [1] * 5 + [0] * 6)
+    # the table is cleared while the sweep is parked
+    mk([[G0, G1, CP], [CL]], [0] * 10 + [0, 0] + [1] * 3 + [0] * 6)
+    # cleared and refilled to the same size while the sweep is parked
+    mk([[G0, G1, CP], [CL, G0, G1]], [0] * 10 + [0, 0] + [1] * 13 + [0] * 6)
+    # sweep alone, two sweeps at once (they contend for the Loaders' own locks), empty table
+    mk([[G0, G1, CP]], [])
+    mk([[G0, G1, CP], [CP]], [0] * 10 + [0, 1, 0, 1, 1, 0, 0, 1])
+    mk([[CP], [G0]], [0, 1, 1, 1, 1, 1, 0])
+    mk([[CP, G0, CP], [G0, CP]], [0, 1, 0, 1, 0, 1, 0, 1])
+    # clear_pipes(name): one unlocked read; while the named loader is being created; after the table was cleared
+    mk([[G0, {'clearPipesOf': 0}, {'clearPipesOf': 1}], [G1]], [0] * 5 + [1, 1, 1, 0, 0, 0, 1, 1, 0, 0, 0])
+    mk([[G0, {'clearPipesOf': 0}], [CL, G0]], [0] * 5 + [0, 0, 1, 1, 1, 1, 1, 1, 1, 0, 0])
+    return out
+
+
+def random_scan_case(rng):
+    n = rng.choice([2, 2, 3])
+    nkeys = 3
+    threads = []
+    for i in range(n):
+        ln = rng.randint(1, 4)
+        prog = []
+        for _ in range(ln):
+            x = rng.random()
+            prog.append(CP if x < (0.4 if i == 0 else 0.12) else {'clearPipesOf': rng.randrange(nkeys)} if x < (0.48 if i == 0 else 0.2)
+                        else CL if x < 0.56 else {'get': rng.randrange(nkeys)})
+        threads.append(prog)
+    if not any(is_sweep(o) for p in threads for o in p):
+        threads[0].append(CP)
+    if rng.random() < 0.6:
+        threads[0] = [{'get': k} for k in range(rng.randint(1, 2))] + threads[0]
+    total = sum(len(p) for p in threads)
+    fails = sorted(rng.sample(range(total), rng.randint(0, min(2, total))))
+    sched = [rng.randrange(n) for _ in range(rng.randint(0, 7 * total))]
+    return {'kind': 'scan', 'cache': 'LoaderCache', 'keys': nkeys, 'threads': threads, 'fails': fails, 'noCache': False,
+            'sched': sched}
+
+
+# ---------------------------------------------------------------------------------------------
+# two locks (lean `CacheTS.Nest`): the real Loader's pipeline cache, whose creator — the real file loader's
+# get_pipeline_definition — looks up the real file_cache
+# ---------------------------------------------------------------------------------------------
+
+# outer key -> (parent, name, inner key): requests 0 and 1 mean the same file (inner key 0)
+NEST_RQS = [(None, '/T/d0/p', 0), ('/T/d0', 'p', 0), (None, '/T/d1/p', 1), ('/T/d1', 'p', 1)]
+NEST_FILES = ['/T/d0/p.yaml', '/T/d1/p.yaml']
+
+
+def run_nest_impl(case):
+    """One schedule case on the real Loader + file loader + file_cache. Parking places: both locks' __enter__/__exit__,
+    entry to and exit from load_pipeline_from_file (the inner creator)."""
+    import pypyr.cache.loadercache as lcm
+    import pypyr.loaders.file as fl
+    from pypyr.cache.filecache import file_cache
+    from pypyr.config import config
+    from pypyr.pipedef import PipelineDefinition
+    failsO, failsI = set(case['failsO']), set(case['failsI'])
+    root = Path(tempfile.mkdtemp(prefix='c13nest')).resolve()
+    conc = lambda x: str(root) + x[2:] if isinstance(x, str) and x.startswith('/T') else x   # noqa: E731
+    st = {'callsO': 0, 'callsI': 0, 'histO': [], 'histI': [], 'activeI': 0, 'overlapI': 0, 'activeO': 0, 'overlapO': 0,
+          'identity_breaks': [], 'notes': []}
+    holder = {}
+    inner_key = {}
+    for i, f in enumerate(NEST_FILES):
+        full = Path(conc(f))
+        full.parent.mkdir(parents=True, exist_ok=True)
+        full.write_text('steps: []\n')
+        inner_key[str(full)] = i
+    first = {}
+    outer_made = []        # (outer key, outer call number, the object the outer creator returned)
+    op_calls = {}          # thread -> outer call numbers of the current operation
+    op_calls_i = {}
+
+    def inner_creator(path):
+        sched = holder['sched']
+        t = sched.tid()
+        c = st['callsI']
+        st['callsI'] += 1
+        op_calls_i.setdefault(t, []).append(c)
+        ki = inner_key.get(str(path), repr(str(path)))
+        st['activeI'] += 1
+        if st['activeI'] > 1:
+            st['overlapI'] += 1
+        try:
+            sched.park('creatorEnter')
+            sched.park('creatorExit')
+        finally:
+            st['activeI'] -= 1
+        if c in failsI:
+            st['histI'].append(['fail', t, ki, c])
+            raise CreatorError(c)
+        st['histI'].append(['create', t, ki, c])
+        return PipelineDefinition(pipeline={'c': c, 'steps': []}, info=None)
+
+    def ident_i(v):
+        if isinstance(v, PipelineDefinition) and isinstance(v.pipeline, Mapping) and 'c' in v.pipeline:
+            c = v.pipeline['c']
+            if first.setdefault(c, v) is not v:
+                st['identity_breaks'].append(c)
+            return c
+        return -1
+
+    def ident_o(ko, v):
+        """the outer creation that made `v` for key `ko` (the newest one)"""
+        for k, c, obj in reversed(outer_made):
+            if k == ko and obj is v:
+                return c
+        return -1
+
+    re_target = {}      # outer key -> outer key its creator looks up in the SAME cache (NOT pypyr: the assumption's witness)
+    outer = {}
+
+    def gpd(pipeline_name, parent):
+        # instrumentation around the real get_pipeline_definition: number the outer creator calls, log their outcome
+        sched = holder['sched']
+        t = sched.tid()
+        ko = next((i for i, (p, n, _) in enumerate(NEST_RQS) if conc(p) == (None if parent is None else str(parent)) and conc(n) == pipeline_name),
+                  None)
+        c = st['callsO']
+        st['callsO'] += 1
+        op_calls.setdefault(t, []).append(c)
+        st['activeO'] += 1
+        if st['activeO'] > 1:
+            st['overlapO'] += 1
+        try:
+            if ko in re_target:
+                p2, n2, _ = NEST_RQS[re_target[ko]]
+                return outer['loader'].get_pipeline(name=conc(n2), parent=conc(p2))
+            try:
+                v = fl.get_pipeline_definition(pipeline_name=pipeline_name, parent=parent)
+            except Abort:
+                raise
+            except Exception:
+                st['histO'].append(['fail', t, ko, c])
+                raise
+            if c in failsO:
+                st['histO'].append(['fail', t, ko, c])
+                raise CreatorError(c)
+            st['histO'].append(['create', t, ko, c])
+            outer_made.append((ko, c, v))
+            return v
+        finally:
+            st['activeO'] -= 1
+
+    results = [[] for _ in case['threads']]
+    cur, logged = {}, {}
+
+    def before_release(t, lock):
+        if t not in cur or logged.get(t) is not None:
+            return
+        layer, what = cur[t]
+        if layer == 'O' and lock is outer['lock']:
+            if what == 'clear':
+                logged[t] = ['clear', t]
+                st['histO'].append(logged[t])
+            elif not op_calls.get(t):
+                logged[t] = ['hit', t, what, None]
+                st['histO'].append(logged[t])
+        elif lock is inner_lock[0]:
+            if layer == 'I' and what == 'clear':
+                logged[t] = ['clear', t]
+                st['histI'].append(logged[t])
+            elif (layer == 'I' or op_calls.get(t)) and not op_calls_i.get(t):
+                # a look-up of the inner cache (direct, or nested in an outer creator) that found its key
+                ev = ['hit', t, None, None]
+                st['histI'].append(ev)
+                pending_inner_hit[t] = ev
+
+    pending_inner_hit = {}
+    inner_lock = [None]
+
+    def do_get_o(ko):
+        def op(t, i):
+            op_calls[t], op_calls_i[t] = [], []
+            cur[t], logged[t] = ('O', ko), None
+            p, n, _ = NEST_RQS[ko]
+            try:
+                v = outer['loader'].get_pipeline(name=conc(n), parent=conc(p))
+            except Abort:
+                raise
+            except Exception as e:
+                calls = op_calls[t]
+                results[t].append(['raised', calls[-1]] if calls and isinstance(e, CreatorError) else ['error', type(e).__name__])
+                return
+            c = ident_o(ko, v)
+            if logged[t] is not None:
+                logged[t][3] = c
+            results[t].append(['val', c])
+        return op
+
+    def do_get_i(ki):
+        def op(t, i):
+            op_calls[t], op_calls_i[t] = [], []
+            cur[t], logged[t] = ('I', ki), None
+            try:
+                v = fl.get_pipeline_definition(pipeline_name=conc(NEST_FILES[ki])[:-5], parent=None)
+            except Abort:
+                raise
+            except Exception as e:
+                calls = op_calls_i[t]
+                results[t].append(['raised', calls[-1]] if calls and isinstance(e, CreatorError) else ['error', type(e).__name__])
+                return
+            results[t].append(['val', ident_i(v)])
+        return op
+
+    def do_clear(layer):
+        def op(t, i):
+            op_calls[t], op_calls_i[t] = [], []
+            cur[t], logged[t] = (layer, 'clear'), None
+            if layer == 'O':
+                outer['loader'].clear()
+            else:
+                file_cache.clear()
+            results[t].append(['cleared'])
+        return op
+
+    def mk_op(o):
+        if o[0] == 'getO':
+            return do_get_o(o[1])
+        if o[0] == 'getRe':
+            re_target[o[1]] = o[2]
+            return do_get_o(o[1])
+        if o[0] == 'getI':
+            return do_get_i(o[1])
+        return do_clear('O' if o[0] == 'clearO' else 'I')
+
+    # the inner hit's key and object are known only inside file_cache.get: wrap it (observation only)
+    programs = [[mk_op(o) for o in prog] for prog in case['threads']]
+    sched = Sched(programs)
+    sched.before_release = before_release
+    holder['sched'] = sched
+    old = (file_cache._lock, file_cache._cache, fl.load_pipeline_from_file, config.no_cache)
+    orig_get = type(file_cache).get
+
+    def watched_inner_get(self, key, creator):
+        v = orig_get(self, key, creator)
+        t = sched.tid()
+        ev = pending_inner_hit.pop(t, None) if self is file_cache else None
+        if ev is not None:
+            ev[2], ev[3] = inner_key.get(key, repr(key)), ident_i(v)
+        return v
+    try:
+        file_cache._lock = inner_lock[0] = SchedLock(sched)
+        file_cache._cache = {}
+        fl.load_pipeline_from_file = inner_creator
+        type(file_cache).get = watched_inner_get
+        config.no_cache = False
+        outer['loader'] = lcm.Loader('pypyr.loaders.file', gpd)
+        outer['lock'] = outer['loader']._pipeline_cache._lock = SchedLock(sched)
+        sched.start()
+        outcome = sched.run(case['sched'], finish=True)
+        stuck = list(sched.stuck) if outcome == 'deadlock' else []
+        tab_o = []
+        for key, v in outer['loader']._pipeline_cache._cache.items():
+            ko = next((i for i, (p, n, _) in enumerate(NEST_RQS) if key == ((str(conc(p)), conc(n)) if p else conc(n))), repr(key))
+            tab_o.append([ko, ident_o(ko, v)])
+        tab_i = [[inner_key.get(k, repr(k)), ident_i(v)] for k, v in file_cache._cache.items()]
+        return {'histO': st['histO'], 'histI': st['histI'], 'results': results, 'cacheO': sorted(tab_o, key=repr),
+                'cacheI': sorted(tab_i, key=repr), 'callsO': st['callsO'], 'callsI': st['callsI'],
+                'done': outcome == 'done', 'outcome': outcome, 'stuck': stuck,
+                'lockO_held': outer['lock'].owner is not None, 'lockI_held': inner_lock[0].owner is not None,
+                'identity_breaks': st['identity_breaks'], 'overlapO': st['overlapO'], 'overlapI': st['overlapI']}
+    finally:
+        type(file_cache).get = orig_get
+        file_cache._lock, file_cache._cache, fl.load_pipeline_from_file, config.no_cache = old
+        shutil.rmtree(root, ignore_errors=True)
+
+
+def run_nest_model(env, case):
+    ops = [[list(o) for o in prog] for prog in case['threads']]
+    return env.driver.ask('cache.nest', threads=ops, sched=case['sched'], failsO=case['failsO'], failsI=case['failsI'],
+                          keys=max(len(NEST_RQS), len(NEST_FILES)), finish=True)
+
+
+def nest_monitor(case, obs):
+    """The property text per layer, on the implementation's two histories; progress; creators of one cache never
+    overlap (single flight seen from inside)."""
+    out = []
+    reentrant = any(o[0] == 'getRe' for p in case['threads'] for o in p)
+    if obs['outcome'] == 'deadlock' and not reentrant:
+        out.append(('progress', f'threads {obs["stuck"]} blocked for ever (outer lock held: {obs["lockO_held"]}, '
+                                f'inner lock held: {obs["lockI_held"]})', {'layer': 'nest'}))
+    for layer, hist, n in (('outer', obs['histO'], len(NEST_RQS)), ('inner', obs['histI'], len(NEST_FILES))):
+        hv, _ = history_monitor([e for e in hist if e[0] in ('hit', 'create', 'fail', 'clear')], {}, n)
+        out += [(c, f'{layer} cache: {d}', {'layer': layer}) for c, d in hv]
+    if obs['overlapO'] or obs['overlapI']:
+        out.append(('single_flight', f'creators of one cache ran at the same time (outer {obs["overlapO"]}, inner {obs["overlapI"]})',
+                    {'layer': 'nest'}))
+    for c in obs['identity_breaks']:
+        out.append(('same_object', f'two different Python objects were handed out for inner creation {c}', {'layer': 'inner'}))
+    if obs['done']:
+        for t, prog in enumerate(case['threads']):
+            want = ['cleared' if o[0] in ('clearO', 'clearI') else 'get' for o in prog]
+            got = ['cleared' if r[0] == 'cleared' else 'get' if r[0] in ('val', 'raised') else r[0] for r in obs['results'][t]]
+            if got != want:
+                out.append(('progress', f'thread {t} ran {want} but its operations returned {got}', {'layer': 'nest'}))
+        if obs['lockO_held'] or obs['lockI_held']:
+            out.append(('progress', 'a cache lock is still held after all threads finished', {'layer': 'nest'}))
+    return out
+
+
+def check_nest_case(env, res, case, count=True):
+    impl = run_nest_impl(case)
+    model = run_nest_model(env, case)
+    res.case(case)
+    reentrant = any(o[0] == 'getRe' for p in case['threads'] for o in p)
+    if count:
+        res.count('nest:reentrant' if reentrant else 'nest')
+        for e in impl['histO']:
+            res.count('nest:outer:' + e[0])
+        for e in impl['histI']:
+            res.count('nest:inner:' + e[0])
+        if impl['outcome'] == 'deadlock':
+            res.count('nest:deadlock-witnessed' if reentrant else 'nest:deadlock')
+    for clause, detail, extra in nest_monitor(case, impl)[:3]:
+        res.violation(case, f'{clause}: {detail}', signature=dict({'clause': clause, 'cache': 'Loader+file_cache'}, **extra), impl=impl)
+    if not reentrant and not model['done']:
+        raise common.Infra('cache.nest: the fair completion of the model did not finish (theorem nest_finish_completes)')
+    keys = ('histO', 'histI', 'results', 'cacheO', 'cacheI', 'callsO', 'callsI', 'done', 'stuck')
+    mi = {k: impl[k] for k in keys}
+    mm = {k: model[k] for k in keys}
+    if mi != mm:
+        res.mismatch(case, mm, mi)
+    return impl, model
+
+
+def nest_ops(ko):
+    return ['getO', ko, NEST_RQS[ko][2]]
+
+
+def directed_nest_cases():
+    out = []
+
+    def mk(threads, sched, failsO=(), failsI=()):
+        out.append({'kind': 'nest', 'threads': threads, 'sched': list(sched), 'failsO': list(failsO), 'failsI': list(failsI)})
+    o0, o1, o2 = nest_ops(0), nest_ops(1), nest_ops(2)
+    i0, co, ci = ['getI', 0], ['clearO'], ['clearI']
+    # two threads race for one outer key; T1 blocks on the outer lock while T0 is inside the inner look-up
+    mk([[o0, o0], [o0]], [0, 1, 0, 1, 0, 0, 0])
+    # T0 holds the outer lock and waits for the inner lock held by T2's direct look-up
+    mk([[o0], [o0], [i0]], [2, 2, 0, 0, 1, 0, 2, 2, 0])
+    # the inner creator raises: the outer creator fails, nothing is stored in either cache, the next get retries both
+    mk([[o0, o0], [o0]], [0, 1, 0, 0, 0, 0, 1], failsI=[0])
+    # the outer creator raises after the inner look-up succeeded: the inner cache keeps the object, the outer does not
+    mk([[o0, o0], [o1]], [0, 0, 0, 0, 0, 1, 1], failsO=[0])
+    # two outer keys, one inner key: the second outer creation is an inner hit
+    mk([[o0, o1], [o1, o0]], [0, 1, 0, 1, 0, 1])
+    # clears of either layer between and during look-ups
+    mk([[o0, co, o0], [ci, o0]], [0, 0, 1, 0, 0, 1, 1, 0])
+    mk([[o0, o2], [ci, i0], [co, o2]], [0, 2, 1, 0, 2, 1, 0, 1, 2])
+    # NOT pypyr — the assumption's witness: a creator that looks up its own cache never returns
+    mk([[['getRe', 0, 2]]], [])
+    mk([[['getRe', 0, 0]], [o2]], [0, 1, 0, 1])
+    return out
+
+
+def random_nest_case(rng):
+    n = rng.choice([2, 2, 3])
+    threads = []
+    for _ in range(n):
+        prog = []
+        for _ in range(rng.randint(1, 3)):
+            x = rng.random()
+            prog.append(nest_ops(rng.randrange(len(NEST_RQS))) if x < 0.6 else ['getI', rng.randrange(2)] if x < 0.8
+                        else ['clearO'] if x < 0.9 else ['clearI'])
+        threads.append(prog)
+    total = sum(len(p) for p in threads)
+    return {'kind': 'nest', 'threads': threads, 'sched': [rng.randrange(n) for _ in range(rng.randint(0, 9 * total))],
+            'failsO': sorted(rng.sample(range(total), rng.randint(0, min(2, total)))),
+            'failsI': sorted(rng.sample(range(total), rng.randint(0, min(2, total))))}
+
+
+def enumerate_nest_cases(env):
+    """all maximal turn-level schedules of three small programs (every entry an enabled thread)"""
+    o0, o1 = nest_ops(0), nest_ops(1)
+    cfgs = [([[o0], [o0]], [], []), ([[o0], [o1]], [], [0]), ([[o0], [['getI', 0]]], [0], [])]
+    if not env.quick:
+        cfgs += [([[o0], [['clearI']]], [], []), ([[o0], [['clearO']]], [], [0])]
+    cases = []
+    for th, fo, fi in cfgs:
+        r = env.driver.ask('cache.nestenum', threads=th, failsO=fo, failsI=fi, limit=20000)
+        if r['scheds'] is None:
+            raise common.Infra(f'nest schedule enumeration too large: {r["count"]}')
+        for sc in r['scheds']:
+            cases.append({'kind': 'nest', 'threads': th, 'sched': sc, 'failsO': fo, 'failsI': fi})
+    return cases
 
 
 # ---------------------------------------------------------------------------------------------
@@ -858,9 +1383,25 @@ def stack_monitor(case, runs):
     return out
 
 
+ALLOWED_NESTING = {('pipeline_cache', 'file_cache')}
+
+
 def check_stack_case(env, res, case, count=True):
-    impl = run_stack_impl(case)
+    info = {}
+    impl = run_stack_impl(case, info)
     model = run_stack_model(env, case)
+    # the assumptions of the two-lock model, watched on the real clients: no creator looks up its own cache; look-ups
+    # nest only as pipeline cache -> file_cache
+    for kind, key in info.get('reentries', [])[:1]:
+        res.violation(case, f'progress: a creator of {kind} looked up the same cache (key {key}): dead-lock on the real lock',
+                      signature={'clause': 'progress', 'site': 'Cache.get', 'fault': 'reentrant-get', 'cache': kind}, impl=impl)
+    extra = [e for e in info.get('nesting', []) if tuple(e) not in ALLOWED_NESTING]
+    if extra:
+        res.mismatch(case, {'nesting': sorted(ALLOWED_NESTING)}, {'nesting': info.get('nesting')},
+                     note='look-ups nest in a way the two-lock model does not cover')
+    if count:
+        for e in info.get('nesting', []):
+            res.count('stack:nesting:' + '->'.join(e))
     res.case(case)
     if count:
         res.count('stack')
@@ -1139,9 +1680,149 @@ def check_syspath(env, res):
         shutil.rmtree(root, ignore_errors=True)
 
 
+def run_syspath_fine_impl(case, dirs):
+    """add_sys_path with `_known_dirs` / `_missing_dirs` replaced by sets that hand over control before every
+    operation: real threads interleaved between any two set operations, outside `_sys_path_lock`."""
+    import pypyr.moduleloader as ml
+    progs = case['threads']
+
+    def do_add(p):
+        def op(t, i):
+            ml.add_sys_path(dirs[p])
+        return op
+    sched = Sched([[do_add(p) for p in prog] for prog in progs])
+    old = (ml._sys_path_lock, ml._known_dirs, ml._missing_dirs)
+    before = list(sys.path)
+    ml._sys_path_lock = SchedLock(sched)
+    ml._known_dirs = ParkSet(sched, 'known')
+    ml._missing_dirs = ParkSet(sched, 'missing')
+    try:
+        sched.start()
+        outcome = sched.run(case['sched'], finish=True)
+        after = list(sys.path)
+        strs = {str(d): p for p, d in dirs.items()}
+        added = [strs.get(x, x) for x in after[len(before):]]
+        known = sorted({strs.get(str(x), str(x)) for x in set(ml._known_dirs)})
+        missing = sorted({strs.get(str(x), str(x)) for x in set(ml._missing_dirs)})
+        return {'sysPath': added, 'known': known, 'missing': missing, 'done': outcome == 'done',
+                'prefix_kept': after[:len(before)] == before}
+    finally:
+        ml._sys_path_lock, ml._known_dirs, ml._missing_dirs = old
+        sys.path[:] = before
+
+
+def check_syspath_fine(env, res, only=None):
+    """lean `fStep`: schedules at the granularity of the single operations on the two sets."""
+    import pypyr.moduleloader as ml
+    if not hasattr(ml, '_missing_dirs'):
+        return
+    root = Path(tempfile.mkdtemp(prefix='c13spf')).resolve()
+    try:
+        dirs = {}
+        for p in range(3):
+            dirs[p] = root / f'd{p}'
+            if p != 2:
+                dirs[p].mkdir()
+        exists = [0, 1]
+        if only is not None:
+            cases = [only]
+        else:
+            progsets = [[[0], [0]], [[0, 0], [0]], [[0, 1], [1, 0]], [[0], [0], [0]], [[2], [2]], [[0, 2], [2, 0]], [[2, 0, 2], [0, 2]]]
+            cases = []
+            for progs in progsets:
+                n = len(progs)
+                total = sum(len(p) for p in progs)
+                # both threads pass the unlocked entry test before either adds; one thread runs ahead; random
+                scheds = [[i % n for i in range(8 * total)], [0] * 9 + [1] * 9, []]
+                scheds += [[env.rng.randrange(n) for _ in range(env.rng.randint(1, 9 * total))] for _ in range(env.n(25, 300))]
+                for sc in scheds:
+                    cases.append({'kind': 'syspathf', 'threads': progs, 'sched': sc, 'exists': exists})
+        for case in cases:
+            impl = run_syspath_fine_impl(case, dirs)
+            model = env.driver.ask('cache.syspathf', threads=case['threads'], sched=case['sched'], exists=exists,
+                                   base=[], finish=True)
+            res.case(case)
+            res.count('syspath:fine')
+            dup = [p for p in set(impl['sysPath']) if impl['sysPath'].count(p) > 1]
+            if dup:
+                res.violation(case, f'sys.path holds {dup} more than once', signature={'clause': 'syspath_once', 'grain': 'set-operation'},
+                              impl=impl)
+            if not impl['prefix_kept']:
+                res.violation(case, 'prior sys.path entries were changed', signature={'clause': 'syspath_once', 'grain': 'set-operation'},
+                              impl=impl)
+            want = {p for prog in case['threads'] for p in prog if p in exists}
+            if impl['done'] and set(impl['sysPath']) != want:
+                res.violation(case, f'sys.path additions {impl["sysPath"]} but existing requested dirs are {sorted(want)}',
+                              signature={'clause': 'syspath_added', 'grain': 'set-operation'}, impl=impl)
+            if not impl['done']:
+                res.violation(case, 'add_sys_path calls blocked for ever', signature={'clause': 'progress', 'site': 'add_sys_path'}, impl=impl)
+            mi = {k: impl[k] for k in ('sysPath', 'known', 'missing', 'done')}
+            if mi != model:
+                res.mismatch(case, model, mi)
+    finally:
+        shutil.rmtree(root, ignore_errors=True)
+
+
+def check_world_ok(env, res):
+    """`Stack.WorldOk` on the real file loader (lean `fileResolve_key`): for one process working directory, requests
+    with equal cache key resolve to the same file. And the stated limit (lean `resolve_depends_on_process_cwd`): a
+    relative parent is read against os.getcwd() at the moment of the call, so the same key means another file after
+    os.chdir — counted, not judged (a change of the world without a clear)."""
+    import pypyr.loaders.file as fl
+    root = Path(tempfile.mkdtemp(prefix='c13wok')).resolve()
+    old_cwd = os.getcwd()
+    try:
+        for d in ('a/sub', 'c/sub', 'a/x+y'):
+            (root / d).mkdir(parents=True)
+        for f in ('a/sub/p.yaml', 'c/sub/p.yaml', 'a/x+y/p.yaml', 'a/p.yaml'):
+            (root / f).write_text('steps: []\n')
+
+        def resolve(parent, name):
+            try:
+                return str(fl.get_pipeline_path(pipeline_name=name, parent=parent))
+            except Exception as e:  # noqa: BLE001
+                return type(e).__name__
+        os.chdir(root / 'a')
+        parents = [None, '', 0, 'sub', Path('sub'), str(root / 'a/sub'), root / 'a/sub', 'x+y', Path('x+y'), './sub', 'missing']
+        names = ['p', 'sub/p', str(root / 'a/p'), 'q']
+        reqs = [(p, n) for p in parents for n in names]
+        key = lambda r: (str(r[0]), r[1]) if r[0] else r[1]   # noqa: E731
+        groups = {}
+        for r in reqs:
+            groups.setdefault(key(r), []).append(r)
+        for k, grp in groups.items():
+            got = [resolve(p, n) for p, n in grp]
+            case = {'kind': 'worldok', 'key': repr(k), 'requests': [[repr(p), n] for p, n in grp]}
+            res.case(case)
+            res.count('worldok:key-group' + ('' if len(grp) == 1 else ':shared'))
+            if len(set(got)) != 1:
+                res.violation(case, f'requests {case["requests"]} share the pipeline cache key {k!r} but resolve to {got}',
+                              signature={'clause': 'pipeline_key', 'cache': 'Loader', 'site': 'get_pipeline_path'}, impl={'got': got})
+        here = resolve('sub', 'p')
+        os.chdir(root / 'c')
+        there = resolve('sub', 'p')
+        case = {'kind': 'worldok', 'key': "('sub', 'p')", 'chdir': True}
+        res.case(case)
+        res.count('worldok:cwd-dependent' if here != there else 'worldok:cwd-independent')
+        if here == there:
+            res.mismatch(case, {'cwd_dependent': True}, {'cwd_dependent': False, 'resolved': here})
+    finally:
+        os.chdir(old_cwd)
+        shutil.rmtree(root, ignore_errors=True)
+
+
 # ---------------------------------------------------------------------------------------------
 # entry points
 # ---------------------------------------------------------------------------------------------
+
+def dispatch_case(env, res, case):
+    kind = case.get('kind')
+    if kind == 'stack':
+        return check_stack_case(env, res, case)
+    if kind == 'nest':
+        return check_nest_case(env, res, case)
+    return check_case(env, res, case)       # 'sched' and 'scan'
+
 
 def _worker_chunk(args):
     """Runs a chunk of schedule cases in a worker process. Returns (findings, counters, n)."""
@@ -1151,10 +1832,7 @@ def _worker_chunk(args):
     res = common.Result()
     try:
         for case in cases:
-            if case.get('kind') == 'stack':
-                check_stack_case(env, res, case)
-            else:
-                check_case(env, res, case)
+            dispatch_case(env, res, case)
     finally:
         if env._driver:
             env._driver.close()
@@ -1169,10 +1847,15 @@ def run(env, res):
                 'clear / no_cache through long-lived Pipeline objects, pipelinerunner.run, the pype step, long-lived Step objects; '
                 'file loader and two custom loaders; directed: every client x loader x way of clearing, + random 4-14 ops); '
                 'Loader key pairs incl. keys that coincide under path joining; real files '
-                'with + in names; add_sys_path schedules. non-trivial = distinct (cache class, programs, script, schedule)')
+                'with + in names; add_sys_path schedules (lock granularity and single-set-operation granularity); LoaderCache.clear_pipes '
+                'next to look-ups and clears (directed + random); the Loader pipeline cache / file loader / file_cache pair under two '
+                'scheduler locks (directed, exhaustive for 1-op x 2-thread programs, random; + the re-entrant witness); WorldOk key groups '
+                'on the real get_pipeline_path. non-trivial = distinct (cache class, programs, script, schedule)')
     # 1. directed
-    for case in directed_cases():
+    for case in directed_cases() + directed_scan_cases():
         check_case(env, res, case)
+    for case in directed_nest_cases():
+        check_nest_case(env, res, case)
     # 2. exhaustive families
     allc = enumerate_cases(env)
     res.extra['exhaustive_schedules_total'] = len(allc)
@@ -1186,13 +1869,17 @@ def run(env, res):
     stack_precheck()
     stack = directed_stack_cases() + [random_stack_case(env.rng) for _ in range(env.n(250, 4000))]
     res.extra['stack_sessions'] = len(stack)
-    work = allc + rnd + stack
+    # 3c. clear_pipes next to look-ups; the pipeline-cache / file_cache pair (two locks)
+    scans = [random_scan_case(env.rng) for _ in range(env.n(120, 2500))]
+    nests = enumerate_nest_cases(env)
+    res.extra['nest_exhaustive_schedules_total'] = len(nests)
+    if env.quick:
+        nests = env.rng.sample(nests, min(len(nests), 150))
+    nests += [random_nest_case(env.rng) for _ in range(env.n(120, 2500))]
+    work = allc + rnd + stack + scans + nests
     if env.quick:
         for case in work:
-            if case.get('kind') == 'stack':
-                check_stack_case(env, res, case)
-            else:
-                check_case(env, res, case)
+            dispatch_case(env, res, case)
     else:
         import multiprocessing as mp
         nproc = min(14, os.cpu_count() or 2)
@@ -1212,6 +1899,8 @@ def run(env, res):
     check_loader_dimension(env, res)
     check_real_files(env, res)
     check_syspath(env, res)
+    check_syspath_fine(env, res)
+    check_world_ok(env, res)
 
 
 def replay(env, res, payload):
@@ -1219,9 +1908,16 @@ def replay(env, res, payload):
     if not case:
         return run(env, res)
     kind = case.get('kind')
-    if kind == 'sched':
+    if kind in ('sched', 'scan'):
         impl, model = check_case(env, res, case)
         res.extra['replayed'] = {'impl': impl, 'model': model}
+    elif kind == 'nest':
+        impl, model = check_nest_case(env, res, case)
+        res.extra['replayed'] = {'impl': impl, 'model': model}
+    elif kind == 'syspathf':
+        check_syspath_fine(env, res, only=case)
+    elif kind == 'worldok':
+        check_world_ok(env, res)
     elif kind == 'stack':
         impl, model = check_stack_case(env, res, case)
         res.extra['replayed'] = {'impl': impl, 'model': model}
